@@ -20,6 +20,7 @@ import (
 	"strings"
 	"syscall"
 	"time"
+	"unicode/utf8"
 
 	"github.com/open2b/scriggo"
 
@@ -344,8 +345,20 @@ func Compare(cd CaseData, opts *scriggo.BuildOptions) core.Result {
 // normCrash normalises formatting that is not part of the observable message.
 func normCrash(s string) string {
 	s = strings.TrimSpace(s)
-	// gc appends " [recovered]" markers and prints goexit info; both sides use the same chain layout
-	return s
+	// gc appends " [recovered]" markers and prints goexit info; both sides use the same chain layout.
+	// The header recorded from gc travels to the worker as a JSON string, where every byte that is
+	// not valid UTF-8 has become U+FFFD: the same is done here for scriggo's message.
+	var b strings.Builder
+	for i := 0; i < len(s); {
+		r, size := utf8.DecodeRuneInString(s[i:])
+		if r == utf8.RuneError && size == 1 {
+			b.WriteString("\uFFFD")
+		} else {
+			b.WriteString(s[i : i+size])
+		}
+		i += size
+	}
+	return b.String()
 }
 
 var repoFrame = regexp.MustCompile(`/repo/[^\s]+:\d+`)
